@@ -400,6 +400,11 @@ def item_values(d, ep, inp, out, x):
         return vals
     elif ep in ("try_new_const", "new_const"):
         vals.append(dec_value(d, inp["v"]))
+    elif ep == "arb_hit":
+        vals.append(dec_value(d, inp["t"]))
+        if k == "ok":
+            vals.append(dec_value(d, out["v"]))
+        return vals
     elif ep == "arb_cover":
         for lo_, hi_ in out.get("runs", []):
             vals.append(int(lo_))
@@ -512,6 +517,11 @@ def model_item(d, proj, ep, inp, out, x):
         if k == "hang":
             return {"ok": True, "v": [list(inp)]}, {"k": "hang", "v": [], "e": ""}, None
         return {"ok": True, "v": [list(inp)]}, model_out(d, proj, out), None
+    if ep == "arb_hit":
+        mi = {"ok": True, "v": [list(inp["bytes"]), proj.model(dec_value(d, inp["t"]))]}
+        if k == "hang":
+            return mi, {"k": "hang", "v": [], "e": ""}, None
+        return mi, model_out(d, proj, out), None
     if ep == "arb_cover":
         if k == "hang":      # the generator did not return on some input: reported as a cover that produced nothing and failed
             return {"ok": True, "v": []}, {"runs": [], "panics": 1000000, "errs": 0, "oks": 0}, None
@@ -570,7 +580,7 @@ def project(decls_by_id, obs_path):
                 mi, mo, env = it
                 ins.append(mi)
                 outs.append(mo)
-                if d["fam"] == "string" and b["ep"] not in ("views", "cmp", "ser", "sort", "arb", "arb_cover"):
+                if d["fam"] == "string" and b["ep"] not in ("views", "cmp", "ser", "sort", "arb", "arb_hit", "arb_cover"):
                     envs.append(env if env is not None else [])
                 raw.append((inp, out, x))
             if not ins:
